@@ -185,6 +185,10 @@ Section Tab.
   Lemma indep_unique_t i j t : i < N -> In i (indep_atoms nlp N act) -> In j (indep_atoms nlp N act) -> t < nlp -> act t i = j -> i = j.
   Proof. intros Hi Hii Hij Ht E. apply (indep_unique_in_orbit nlp N act) with (t := t); grp. Qed.
 
+  (** the greedy scan written in the source returns the orbit minima *)
+  Lemma indep_scan_t : indep_scan nlp N act = indep_atoms nlp N act.
+  Proof. apply indep_scan_eq; grp. Qed.
+
   Lemma omin_le_self_t i : i < N -> omin nlp act i <= i.
   Proof. intros Hi. apply omin_le_self with (N := N); grp. Qed.
   Lemma omin_in_orbit_t i : i < N -> exists t, t < nlp /\ omin nlp act i = act t i.
